@@ -85,6 +85,8 @@ def build_model(spec):
         p['bc_x'] = 'periodic'
     if 'time' in spec:
         p['time'] = spec['time']
+    if spec.get('explicit_plus_hc'):
+        p['explicit_plus_hc'] = True
     if spec['kind'] == 'lr':
         p.update(J2=spec.get('J2', 0.3), J3=spec.get('J3', 0.2))
         return LR(p)
@@ -158,7 +160,7 @@ def engine_options(case, dt, N):
         opt['approximation'] = case.get('approximation', 'II')
         opt['compression_method'] = case.get('compression', 'SVD')
         opt['max_dt'] = 1.e300
-        if case.get('compression') == 'variational':
+        if case.get('compression') in ('variational', 'variationalQR'):
             opt['max_sweeps'] = case.get('max_sweeps', 3)
             opt['min_sweeps'] = 1
         if case.get('compression') == 'zip_up':
@@ -167,6 +169,12 @@ def engine_options(case, dt, N):
     else:
         opt['max_dt'] = 1.e300
         opt['lanczos_params'] = dict(N_min=2, N_max=case.get('lanczos_N_max', 20), P_tol=1.e-14, reortho=True)
+    # option branches chosen by the generator (QR options, lanczos_params, combine, Krylov_params, E_offset, ...)
+    import copy
+    for k, v in copy.deepcopy(case.get('extra_options') or {}).items():
+        if k == 'lanczos_options':     # deprecated alias: must not be given together with lanczos_params
+            opt.pop('lanczos_params', None)
+        opt[k] = v
     return opt
 
 
